@@ -343,7 +343,10 @@ def close_family_scenarios():
               st("Gather", "Open1", "Reply1", "Settle", "Restart", "Gather", "Open2", "Close", "Settle"),
               st("Gather", "Open1", "Reply1", "Settle", "Restart", "Gather", "Open2", "Reply2", "Settle", "Close", "Settle"),
               st("Gather", "Open1", "Reply1", "Settle", "Fail", "Close", "Settle")]
-    return [{"site": site, "fault": fault, "steps": steps} for site in SITES + ["relay-tcp"] for fault in ("none", "close-error") for steps in shapes]
+    one = [{"site": site, "fault": fault, "steps": steps} for site in SITES + ["relay-tcp"] for fault in ("none", "close-error") for steps in shapes]
+    # several candidates of a kind (two server URLs / two interfaces): one candidate's failing Close must not end the teardown of the others
+    two = [dict(s, two=True) for s in one if s["site"] in ("relay", "relay-tcp", "host-udp", "srflx-own")]
+    return one + two
 
 
 def regression_scenarios(copies=16):
